@@ -232,15 +232,17 @@ Lemma fm_refresh_one_spec w s o i r s' :
   fm_refresh_one w s o i = (r, s') ->
   frx (w_cfg w) s s' /\
   (r = Ok false -> least_specific s (lookup_keys w o i) = None) /\
-  (r = Ok true -> exists T, placed w s' o i T /\ kfresh (proj s') T).
+  (r = Ok true -> exists T, placed w s' o i T /\ kfresh (proj s') T) /\
+  (forall e, r = Err e -> e <> cOK).
 Proof.
   intros K H. unfold fm_refresh_one in H.
   destruct (least_specific s (lookup_keys w o i)) as [[k l]|] eqn:LS.
-  2:{ inversion H; subst. split; [apply frx_refl|]. split; [auto|discriminate]. }
+  2:{ inversion H; subst. split; [apply frx_refl|]. split; [auto|]. split; [discriminate|intros; discriminate]. }
   apply least_specific_some in LS. destruct LS as [KI IG].
   apply index_get_in in IG. destruct IG as [IN V].
   destruct (negb (needs_refresh s l)) eqn:NR.
   { apply negb_true_iff in NR. inversion H; subst. split; [apply frx_refl|]. split; [discriminate|].
+    split; [|intros; discriminate].
     intros _. exists (l_abs l). split; [exists k, l; auto|eapply not_old_fresh; eauto]. }
   apply negb_false_iff in NR.
   (* the direct (sync) path *)
@@ -273,17 +275,20 @@ Proof.
                 end
             end = (r, s') ->
             frx (w_cfg w) s s' /\ (r = Ok false -> @None (key * loc) = Some (k, l)) /\
-            (r = Ok true -> exists T, placed w s' o i T /\ kfresh (proj s') T)).
+            (r = Ok true -> exists T, placed w s' o i T /\ kfresh (proj s') T) /\
+            (forall e, r = Err e -> e <> cOK)).
   { intros fkeys KF HC.
     destruct (block_of_loc s l) as [b|].
-    2:{ inversion HC; subst. split; [apply frx_refl|]. split; discriminate. }
+    2:{ inversion HC; subst. split; [apply frx_refl|]. split; [discriminate|]. split; [discriminate|].
+        intros e E; inversion E; discriminate. }
     cbv zeta in HC.
     pose proof (same_pin s (b_uid b)) as SP.
     destruct (ocn_put (w_cfg w) (pin s (b_uid b)) (l_size l)) as [r1 s1] eqn:EO.
-    apply ocn_put_spec in EO. destruct EO as (F1 & HW & _).
+    apply ocn_put_spec in EO. destruct EO as (F1 & HW & HE1).
     assert (F01 : frx (w_cfg w) s s1) by (eapply frx_trans; [apply same_frx; exact SP|apply fr_frx; exact F1]).
     destruct r1 as [wr|e].
-    2:{ inversion HC; subst. split; [eapply frx_trans; [exact F01|apply same_frx, same_unpin]|]. split; discriminate. }
+    2:{ inversion HC; subst. split; [eapply frx_trans; [exact F01|apply same_frx, same_unpin]|].
+        split; [discriminate|]. split; [discriminate|]. intros e' E; inversion E; subst. apply (HE1 e' eq_refl). }
     destruct (HW wr eq_refl) as [B1 B2].
     destruct (read_validated w s1 o (b_uid b) l) as [[valid bs] s2] eqn:ER.
     apply read_validated_spec in ER. destruct ER as [F2 V2].
@@ -299,18 +304,21 @@ Proof.
     - inversion HC; subst. destruct (HL nl eq_refl) as (A1 & A2 & A3). subst valid.
       destruct (index_put_all_spec fkeys s3 nl) as (P5 & T5 & I5 & A5).
       split; [eapply frx_trans; [exact F03|apply frx_index_put_all]|]. split; [discriminate|].
+      split; [|intros; discriminate].
       intros _. exists (l_abs nl). split; [exists k, nl; auto|].
       rewrite P5. destruct S23 as [P23 _].
       rewrite (V2 eq_refl) in P23. rewrite P23. unfold kfresh, k_end; cbn.
       assert (s_tbr s3 = s_tbr s1) by (change (k_tbr (proj s3) = k_tbr (proj s1)); rewrite P23; reflexivity).
       lia.
-    - inversion HC; subst. split; [exact F03|]. split; discriminate. }
+    - inversion HC; subst. split; [exact F03|]. split; [discriminate|]. split; [discriminate|].
+      intros e' E; inversion E; subst. destruct valid; [apply (HE e eq_refl)|discriminate]. }
   destruct (c_hier (w_cfg w)).
   - destruct (sync_from_canonical s o k) as [[cl s1]|] eqn:SY.
-    + inversion H; subst. destruct (SYNC cl s' eq_refl) as [A B]. split; [auto|]. split; [discriminate|auto].
-    + apply COPY in H; [|right; left; reflexivity]. destruct H as (A & B & C). split; [auto|]. split; [|auto].
+    + inversion H; subst. destruct (SYNC cl s' eq_refl) as [A B]. split; [auto|]. split; [discriminate|].
+      split; [auto|intros; discriminate].
+    + apply COPY in H; [|right; left; reflexivity]. destruct H as (A & B & C & D). split; [auto|]. split; [|auto].
       intros E. specialize (B E). discriminate.
-  - apply COPY in H; [|left; reflexivity]. destruct H as (A & B & C). split; [auto|]. split; [|auto].
+  - apply COPY in H; [|left; reflexivity]. destruct H as (A & B & C & D). split; [auto|]. split; [|auto].
     intros E. specialize (B E). discriminate.
 Qed.
 
@@ -335,7 +343,7 @@ Proof.
   induction todo as [|[pos0 [o0 i0]] t IH]; intros s missing m s' K H; cbn [fm_phase2] in H.
   - inversion H; subst. split; [apply frx_refl|]. split; [apply incl_refl|]. split; [auto|]. intros ? ? ? [].
   - destruct (fm_refresh_one w s o0 i0) as [r1 s1] eqn:E1.
-    apply fm_refresh_one_spec in E1; [|exact K]. destruct E1 as (F1 & HM & HP).
+    apply fm_refresh_one_spec in E1; [|exact K]. destruct E1 as (F1 & HM & HP & _).
     pose proof (frx_kinv _ _ _ F1 K) as K1.
     destruct r1 as [[|]|e]; [| |discriminate].
     + pose proof H as H0. apply IH in H; [|exact K1]. destruct H as (F2 & IM & A & B).
@@ -440,3 +448,19 @@ Qed.
 Lemma find_missing_frx w s ds r s' :
   kinv (w_cfg w) (proj s) -> find_missing w s ds = (r, s') -> frx (w_cfg w) s s'.
 Proof. intros K H. unfold find_missing in H. eapply fm_phase2_frx; eauto. Qed.
+
+Lemma fm_phase2_err w : forall todo s missing e s',
+  kinv (w_cfg w) (proj s) -> fm_phase2 w s todo missing = (Err e, s') -> e <> cOK.
+Proof.
+  induction todo as [|[pos0 [o0 i0]] t IH]; intros s missing e s' K H; cbn [fm_phase2] in H; [discriminate|].
+  destruct (fm_refresh_one w s o0 i0) as [r1 s1] eqn:E1.
+  apply fm_refresh_one_spec in E1; [|exact K]. destruct E1 as (F1 & _ & _ & HE).
+  pose proof (frx_kinv _ _ _ F1 K) as K1.
+  destruct r1 as [[|]|e1].
+  - eapply IH; eauto.
+  - eapply IH; eauto.
+  - inversion H; subst. apply (HE e eq_refl).
+Qed.
+Lemma find_missing_err w s ds e s' :
+  kinv (w_cfg w) (proj s) -> find_missing w s ds = (Err e, s') -> e <> cOK.
+Proof. intros K H. unfold find_missing in H. eapply fm_phase2_err; eauto. Qed.
